@@ -27,12 +27,16 @@ def get_literal_expr(obj: object) -> Optional[str]:
     try:
         name = BUILTIN_TO_NAME[obj]
     except (KeyError, TypeError):
-        try:
-            return _get_complex_literal_expr(obj)
-        except _CannotBeRenderedError:
-            return None
+        name = None
 
-    return name
+    # lookup is based on equality, so ``Decimal(1)`` or ``IntEnum`` member with value 1 are found as ``True``
+    if name is not None and NAME_TO_BUILTIN[name] is obj:
+        return name
+
+    try:
+        return _get_complex_literal_expr(obj)
+    except _CannotBeRenderedError:
+        return None
 
 
 def _provide_lit_expr(obj: object) -> str:
